@@ -156,3 +156,10 @@ Lemma fib_defect a11 a12 a21 a22 e11 e12 e21 e22 b0 b1 b2 b3 d :
   let W := rmmul (transpose (lin6 M)) (rmmul S6plus (lin6 M)) in
   c1 (c0 W) = a11 * a22 - a12 * a21 /\ c3 (c2 W) = e11 * e22 - e12 * e21.
 Proof. cbv zeta. unfold fib. sred. split; ring. Qed.
+
+(** continuity gives a neighbourhood *)
+Lemma locally_pos0 (f : R -> R) : ex_derive f 0 -> 0 < f 0 -> locally 0 (fun t => 0 < f t).
+Proof.
+  intros Hd Hp. apply ex_derive_continuous in Hd.
+  apply (Hd (fun y => 0 < y)). apply (open_gt 0). exact Hp.
+Qed.
